@@ -40,6 +40,7 @@ typedef struct SimKnobs {
     int short_write_pm;   /* per-mille: write accepts fewer bytes than it could */
     int eintr_pm;         /* per-mille: read/write fails with EINTR first */
     int zombie_delay_us;  /* max delay between fd close at death and waitpid visibility */
+    int accept_fail_pm;   /* per-mille: accept() on a ready listener fails with EMFILE/ENFILE/ENOMEM/ECONNABORTED first (descriptor pressure from abandoned connections) */
     int stack_mode;       /* 0 = stacks as the host gives them; v>0 = new stacks pre-filled with byte v-1 and the dead stack below the running frame overwritten with it after returns */
     int malloc_junk;      /* 0 off, else fill byte seed for allocator seam */
     uint64_t max_steps;   /* scheduling step budget for the run */
@@ -74,7 +75,7 @@ typedef struct Pipe { Buf buf; int readers, writers; size_t cap; } Pipe;
 
 typedef struct FsNode {
     char path[200];
-    int kind;                  /* 0 regular file, 1 socket node */
+    int kind;                  /* 0 regular file, 1 socket node, 2 named pipe already holding its writer's bytes (sequential reads only, no seeking, size 0) */
     Buf data;
     int links;                 /* 1 while named, 0 after unlink */
     int opens;
@@ -106,7 +107,7 @@ typedef struct SimFile {       /* an open file description */
     int id;
 } SimFile;
 
-#define SIM_MAXFD 64
+#define SIM_MAXFD 1024
 typedef struct SimProc {
     int pid, ppid;
     char name[48];
@@ -150,6 +151,7 @@ SimProc *sim_find_pid(int pid);
 int sim_nprocs(void); SimProc *sim_proc_at(int i);
 void sim_kill_proc(SimProc *p, int sig);               /* harness-initiated kill */
 int sim_proc_live_tasks(SimProc *p);
+int sim_proc_tasks_stuck_on_peer(SimProc *p);
 void sim_forget_dead(void);
 void sim_env_set(SimProc *p, const char *kv);
 extern bool sim_trace;
@@ -179,7 +181,7 @@ typedef struct SimStats {
     uint64_t steps, switches, preempts, blocks;
     uint64_t short_reads, short_writes, eintrs, blocked_writes, blocked_reads;
     uint64_t sigpipe_kills, epipes, econnresets, eofs, conn_refused, backlog_waits;
-    uint64_t forks, execs, exec_fails, waitpid_nohang_zero, kills, zombie_delays;
+    uint64_t forks, execs, exec_fails, waitpid_nohang_zero, kills, zombie_delays, accept_fails;
     uint64_t poll_timeouts, sleeps, mutex_contended, threads_created;
     uint64_t flock_contended, img_swaps;
 } SimStats;
